@@ -600,6 +600,74 @@ func mustPass(to *ssa.BasicBlock, cut func(Guard) bool) bool {
 	return true
 }
 
+// builtFrom: the (slice) value v is assembled, through append, slice
+// literals, re-slicing, phis and local variables, from some value that
+// satisfies match. Used for "the result contains X" clauses independently of
+// how the list is put together.
+func builtFrom(v ssa.Value, match func(ssa.Value) bool) bool {
+	seen := map[ssa.Value]bool{}
+	var walk func(v ssa.Value, depth int) bool
+	walk = func(v ssa.Value, depth int) bool {
+		if v == nil || seen[v] || depth > 40 {
+			return false
+		}
+		seen[v] = true
+		if match(v) {
+			return true
+		}
+		switch x := v.(type) {
+		case *ssa.Call:
+			if callName(x.Common()) == "builtin.append" {
+				for _, a := range x.Common().Args {
+					if walk(a, depth+1) {
+						return true
+					}
+				}
+			}
+		case *ssa.Slice:
+			return walk(x.X, depth+1)
+		case *ssa.Phi:
+			for _, e := range x.Edges {
+				if walk(e, depth+1) {
+					return true
+				}
+			}
+		case *ssa.MakeInterface:
+			return walk(x.X, depth+1)
+		case *ssa.ChangeType:
+			return walk(x.X, depth+1)
+		case *ssa.Convert:
+			return walk(x.X, depth+1)
+		case *ssa.Extract:
+			return walk(x.Tuple, depth+1)
+		case *ssa.Alloc:
+			// an array literal / local: what is stored into it or its elements
+			for _, ref := range *x.Referrers() {
+				switch y := ref.(type) {
+				case *ssa.Store:
+					if y.Addr == ssa.Value(x) && walk(y.Val, depth+1) {
+						return true
+					}
+				case *ssa.IndexAddr:
+					for _, r2 := range *y.Referrers() {
+						if st, ok := r2.(*ssa.Store); ok && st.Addr == ssa.Value(y) && walk(st.Val, depth+1) {
+							return true
+						}
+					}
+				}
+			}
+		case *ssa.UnOp:
+			if x.Op == token.MUL {
+				if al, ok := x.X.(*ssa.Alloc); ok {
+					return walk(al, depth+1)
+				}
+			}
+		}
+		return false
+	}
+	return walk(v, 0)
+}
+
 // guardedBy reports whether some dominating guard satisfies pred.
 func guardedBy(b *ssa.BasicBlock, pred func(g Guard) bool) bool {
 	for _, g := range guardsOf(b) {
